@@ -91,3 +91,17 @@ Example C18_nonvacuous :
   meta_parts {| c_ignore := false; c_matches := []; c_compose := true; c_literal_dots := true |}
              {| m_name := "a.web.prod"; m_uri := ""; m_parts := ["a"; "web.prod"] |} = ["a"; "web"; "prod"].
 Proof. split; reflexivity. Qed.
+
+(** The metadata is merged after the classes (and before the node's own parameters): a class cannot
+    override it.  Evaluated in the kernel: a class sets `_reclass_:environment` and `_reclass_:name:short`;
+    the rendered node still carries its own. *)
+Example C18_classes_do_not_override_the_metadata :
+  let cfg := {| c_ignore := false; c_matches := []; c_compose := false; c_literal_dots := false |} in
+  let tbl := [{| ce_name := "defaults"; ce_loc := [];
+                 ce_doc := YMap [(YStr "parameters", YMap [(YStr "_reclass_", YMap [(YStr "environment", YStr "unknown");
+                                                                              (YStr "name", YMap [(YStr "short", YStr "unknown")])])])] |}] in
+  exists n r, node_of_yaml [] (YMap [(YStr "classes", YSeq [YStr "defaults"]);
+                                     (YStr "parameters", YMap [(YStr "me", YStr "${_reclass_:name:short}|${_reclass_:environment}")])]) = Ok n /\
+    node_render 5 60 cfg tbl n {| m_name := "web1"; m_uri := ""; m_parts := ["web1"] |} = Ok r /\
+    m_get (VStr "me") (n_params r) = Some (VLit "web1|base").
+Proof. cbn zeta. eexists. eexists. split; [reflexivity|]. split; vm_compute; reflexivity. Qed.
